@@ -9,6 +9,11 @@ func registerMore(m map[string]propSpec) {
 	m["C01"] = c01
 	m["C10"] = propSpec{Level: "model_checking", Engines: []engine{{Harness: "mux", Overlay: "mux", Name: "mux", Shards: -1, MemMB: 4096}}}
 	m["C11"] = propSpec{Level: "model_checking", Engines: []engine{{Harness: "mux", Overlay: "mux", Name: "mux", Shards: -1, MemMB: 4096}}}
+	m["C09"] = propSpec{Level: "model_checking", Engines: []engine{{Harness: "syncx", Overlay: "base"}}}
+	m["C07"] = propSpec{Level: "fault_enumeration", Engines: []engine{
+		{Harness: "faults", Overlay: "base", Name: "answers"},
+		{Harness: "faults", Overlay: "base", Name: "cuts", Shards: 2},
+	}}
 	m["C06"] = propSpec{Level: "model_checking", Engines: []engine{
 		{Harness: "adapt", Overlay: "base", Name: "masks"},
 		{Harness: "adapt", Overlay: "base", Name: "order"},
